@@ -35,6 +35,8 @@ MODES = {   # label -> (type spec, matlab class, unwrap kind, C++ type in unwrap
     'const-string-ref': (T('string', 1, '&'), 'char', 'unwrap', 'string', ''),
     'Vector': (T('Vector', 1, '&'), 'double', 'unwrap', 'Vector', ''),
     'Matrix': (T('Matrix'), 'double', 'unwrap', 'Matrix', ''),
+    'Point2': (T('Point2', 1, '&'), 'double', 'unwrap', 'Point2', ''),
+    'Point3': (T('Point3'), 'double', 'unwrap', 'Point3', ''),
     'obj-value': (T(A), 'gt.Arg', 'unwrap_shared_ptr', 'gt::Arg', '*'),
     'obj-cref': (T(A, 1, '&'), 'gt.Arg', 'unwrap_shared_ptr_deref', 'gt::Arg', ''),
     'obj-shared': (T(A, 0, '*'), 'gt.Arg', 'unwrap_shared_ptr', 'gt::Arg', ''),
@@ -44,6 +46,7 @@ MODES = {   # label -> (type spec, matlab class, unwrap kind, C++ type in unwrap
 }
 DEFAULTS = {'int': '41', 'double': '4.5', 'bool': 'true', 'size_t': '43', 'char': "'q'", 'uchar': '200', 'string': '"dflt"',
             'const-string-ref': '"ref, dflt"', 'Vector': 'Vector()', 'Matrix': 'Matrix::Identity(2, 2)',
+            'Point2': 'Point2(1, 2)', 'Point3': 'Point3(1, 2, 3)',
             'obj-value': 'gt::Arg()', 'obj-cref': 'gt::Arg(1)', 'obj-shared': 'nullptr', 'obj-raw': 'nullptr',
             'ns-enum': 'gt::Kind::Cat', 'class-enum': 'gt::Host::Mode::SLOW'}
 
@@ -61,7 +64,13 @@ RETURNS = {   # label -> (ret spec, expected out wraps (list of (kind, type text
     'pair-obj-shared': (pair(T(A), T(A, 0, '*')), [('wrap_shared_ptr_make', 'gt::Arg', 'gt.Arg'), ('wrap_shared_ptr', 'gt.Arg')], 2),
     'pair-Vector-obj': (pair(T('Vector'), T(A)), [('wrap', 'Vector'), ('wrap_shared_ptr_make', 'gt::Arg', 'gt.Arg')], 2),
     'ns-enum': (single(T('gt::Kind')), [('wrap_enum', 'gt.Kind')], 1),
+    # a class whose name contains the letters "void"
+    'obj-voidname': (single(T('gt::Avoider')), [('wrap_shared_ptr_make', 'gt::Avoider', 'gt.Avoider')], 1),
+    'pair-voidname': (pair(T('gt::Avoider', 0, '*'), T('int')), [('wrap_shared_ptr', 'gt.Avoider'), ('wrap', 'int')], 2),
 }
+
+# shape tests the guard adds for fixed-size types: mode -> {dimension: extent}
+SIZES = {'Vector': {2: 1}, 'Point2': {1: 2, 2: 1}, 'Point3': {1: 3, 2: 1}}
 
 NAMES = ['alpha', 'a', 'alp', 'ha', 'l']     # later names are substrings of earlier ones on purpose
 
@@ -97,8 +106,8 @@ def signatures(thorough):
 KINDS = ['method', 'static', 'function', 'ctor']
 
 
-def build_module(kind, items, scope):
-    return _scoped(_build_module(kind, items), scope)
+def build_module(kind, items, scope, layout='support-first'):
+    return _scoped(_build_module(kind, items, layout), scope)
 
 
 def _scoped(res, scope):
@@ -117,10 +126,10 @@ def _scoped(res, scope):
     return body, exp2
 
 
-def _build_module(kind, items):
+def _build_module(kind, items, layout='support-first'):
     """items: list of dicts {modes, k, ret}; returns (module spec, list of expected callables)."""
     members, funcs, exp = [], [], []
-    support = [D.enum('Kind', ['Dog', 'Cat']), D.cls('Arg', [D.ctor('Arg')])]
+    support = [D.enum('Kind', ['Dog', 'Cat']), D.cls('Arg', [D.ctor('Arg')]), D.cls('Avoider', [D.ctor('Avoider')])]
     host_members = [D.enum('Mode', ['FAST', 'SLOW'], 'enum class'), D.ctor('Host')]
     extra_classes = []
     for i, it in enumerate(items):
@@ -130,7 +139,7 @@ def _build_module(kind, items):
             dflt = DEFAULTS[m] if j >= n - it['k'] else None
             args.append(arg(MODES[m][0], NAMES[j], dflt))
         r = RETURNS[it['ret']][0]
-        name = {'method': 'm', 'static': 's', 'function': 'fn', 'ctor': 'Ct'}[kind] + str(i)
+        name = it.get('name') or {'method': 'm', 'static': 's', 'function': 'fn', 'ctor': 'Ct'}[kind] + str(i)
         e = dict(it, name=name, kind=kind, args=args)
         if kind == 'method':
             host_members.append(D.method(r, name, args, i % 2))
@@ -139,9 +148,17 @@ def _build_module(kind, items):
         elif kind == 'function':
             funcs.append(D.func(r, name, args))
         else:
-            extra_classes.append(D.cls(name, [D.ctor(name, args)]))
+            same = [c for c in extra_classes if c['n'] == name]
+            if same:
+                same[0]['m'].append(D.ctor(name, args))
+            else:
+                extra_classes.append(D.cls(name, [D.ctor(name, args)]))
         exp.append(e)
-    body = support + [D.cls('Host', host_members)] + extra_classes + funcs
+    if layout == 'support-last':
+        # the enum and the argument class are declared after everything that uses them
+        body = [D.cls('Host', host_members)] + extra_classes + funcs + support
+    else:
+        body = support + [D.cls('Host', host_members)] + extra_classes + funcs
     return [D.ns('gt', body)], exp
 
 
@@ -193,7 +210,7 @@ def expected_unwrap(mode, name, idx):
 def check_unit(case):
     kind, items = case['kind'], case['items']
     scope = case.get('scope', 'gt')
-    mod, exp = build_module(kind, items, scope)
+    mod, exp = build_module(kind, items, scope, case.get('layout', 'support-first'))
     cpre = scope + '::' if scope else ''
     mpre = cpre.replace('::', '.')
     fpre = ''.join('+%s/' % p for p in scope.split('::') if p)
@@ -213,7 +230,7 @@ def check_unit(case):
         if len(items) > 1:
             out = {'viol': [], 'n': 0}
             for it in items:
-                r = check_unit({'kind': kind, 'items': [it], 'scope': scope})
+                r = check_unit({'kind': kind, 'items': [it], 'scope': scope, 'layout': case.get('layout', 'support-first')})
                 out['viol'] += r['viol']
             return out
         e = exp[0]
@@ -222,9 +239,13 @@ def check_unit(case):
     mex = gen.scan_mex(tree['mod_wrapper.cpp'])
     id2routine = {cid: calls[0] for cid, calls in mex['cases'] if calls}
     nchecked = 0
-    for e in exp:
+    for ei, e in enumerate(exp):
         n, k = len(e['modes']), e['k']
         want_arities = list(range(n, n - k - 1, -1))
+        # overload set: the branches of all same-named callables follow each other in declaration order
+        group = [p for p in exp if p['name'] == e['name']]
+        first = sum(p['k'] + 1 for p in exp[:ei] if p['name'] == e['name'])
+        total = sum(p['k'] + 1 for p in group)
         # --- locate the .m function and its guarded call sites
         if kind in ('function', 'ctor'):
             path = fpre + '%s.m' % e['name']
@@ -242,6 +263,7 @@ def check_unit(case):
             fbody = ast[1]['body']
         elif kind == 'ctor':
             fbody = [f for f in ast['methods'] if f['name'] == e['name']][0]['body']
+            path = fpre + '%s.m' % e['name']
         else:
             fl = ast['static'] if kind == 'static' else ast['methods']
             fs = [f for f in fl if f['name'] == e['name']]
@@ -260,6 +282,12 @@ def check_unit(case):
                 for b in body:
                     for cid, cargs, nout, targets in mm.wrapper_calls(b, 'mod_wrapper'):
                         sites.append((g, cid, cargs, nout, targets))
+        if len(group) > 1:
+            if len(sites) != total:
+                add('C06|arities|%s|overload-set' % kind, 'overload set %s offers %d guarded branches %s, expected %d'
+                    % (e['name'], len(sites), [g['count'] for g, _, _, _, _ in sites], total), e)
+                continue
+            sites = sites[first:first + k + 1]
         got_arities = [g['count'] for g, _, _, _, _ in sites]
         if got_arities != want_arities:
             add('C06|arities|%s|n%d-k%d' % (kind, n, k), 'arities offered %s, expected %s (full arity first)' % (got_arities, want_arities), e)
@@ -274,6 +302,11 @@ def check_unit(case):
                 if got_cls != want_cls:
                     add('C06|guard-class|%s|%s' % (kind, mode),
                         'arity %d: guard tests varargin{%d} as %r, declared type needs %r' % (ar, i + 1, got_cls, want_cls), e)
+            want_size = {(i + 1, dim): ext for i in range(ar) for dim, ext in SIZES.get(e['modes'][i], {}).items()}
+            if g['size'] != want_size:
+                add('C06|guard-shape|%s|%s' % (kind, '+'.join(sorted(set(e['modes']) & set(SIZES))) or 'none'),
+                    'arity %d: guard tests the shapes %r, the declared types need %r ((argument, dimension): extent)'
+                    % (ar, sorted(g['size'].items()), sorted(want_size.items())), e)
             extra_isa = [i for i in g['isa'] if i > ar]
             if extra_isa:
                 add('C06|guard-extra|%s' % kind, 'arity %d: guard tests arguments %s beyond the count' % (ar, extra_isa), e)
@@ -416,13 +449,33 @@ def run(ctx):
         for scope in ('', 'gt::inner'):
             for i in range(0, len(sub), per):
                 cases.append({'kind': kind, 'items': sub[i:i + per], 'scope': scope})
+    # overload sets whose members differ in arity, parameter types and return shape, in every rotation
+    ovl = [(['int'], 0, 'void'), (['int', 'int'], 0, 'double'), (['Vector'], 0, 'pair-int-double'), (['double', 'string'], 1, 'obj'),
+           (['obj-cref', 'Point2', 'int'], 2, 'Vector')]
+    for kind in KINDS:
+        for scope in ('gt', ''):
+            for rot in range(len(ovl)):
+                grp = ovl[rot:] + ovl[:rot]
+                nm = {'method': 'ov', 'static': 'Ov', 'function': 'ovf', 'ctor': 'Ovc'}[kind]
+                its = [{'modes': ms, 'k': k, 'ret': r if kind != 'ctor' else 'int', 'name': nm} for ms, k, r in grp]
+                # a differently named callable before and after the set
+                cases.append({'kind': kind, 'scope': scope, 'items': [{'modes': ['int'], 'k': 0, 'ret': 'int'}] + its +
+                              [{'modes': ['double'], 'k': 1, 'ret': 'string'}]})
+    # the enum and the argument class declared after their users
+    uses = [it for it in items if (set(it['modes']) & {'ns-enum', 'class-enum', 'obj-value', 'obj-cref', 'obj-shared', 'obj-raw'} and len(it['modes']) <= 2)
+            or it['ret'] in ('ns-enum', 'obj', 'shared', 'pair-obj-shared', 'obj-voidname')]
+    for kind in KINDS:
+        its = uses if kind != 'ctor' else [it for it in uses if it['ret'] == 'int']
+        for scope in ('gt', ''):
+            for i in range(0, len(its), per):
+                cases.append({'kind': kind, 'items': its[i:i + per], 'scope': scope, 'layout': 'support-last'})
     res = ctx.map(check_unit, cases, chunksize=1)
     ncall = sum(len(c['items']) for c in cases)
     return {
         'evaluations': sum(r.get('n', 0) for _, r in res),
         'distinct_nontrivial': ncall,
-        'rule': 'signatures = arity 0..%d x every trailing default count x one deviating parameter over 16 passing modes%s, '
-                'plus 13 return shapes; each as method / static / function / constructor; evaluations = (callable, arity) '
+        'rule': 'signatures = arity 0..%d x every trailing default count x one deviating parameter over 18 passing modes%s, '
+                'plus 15 return shapes, overload sets of 5 members in every rotation, and the enum / argument class declared after their users; each as method / static / function / constructor; evaluations = (callable, arity) '
                 'pairs fully checked on both sides, distinct_nontrivial = distinct callables; scopes: namespace gt (all), global and gt::inner (%s)'
                 % ((5, ' + two deviating parameters for n = 2, 3', 'all') if ctx.thorough else (4, ' + two deviating parameters for n = 2', 'every 3rd signature')),
         'samples': [D.render(build_module('method', items[40:44], 'gt')[0])],
